@@ -48,7 +48,7 @@ LEVEL_TEXT = ('exploration: seeded histories (5..200 steps, with injected aborts
 LEVEL_NOTE = ('histories, precisions and crash points not generated are not covered; aborts are injected at Python function '
               'entries only (not between two bytecodes of one function)')
 TECHNIQUE = 'runtime monitoring: history replay against fresh processes + cache-read taps + exact residual monitors'
-SHARD_TIMEOUT = {'quick': 500, 'thorough': 1700}
+SHARD_TIMEOUT = {'quick': 900, 'thorough': 2400}
 
 R_, C_, I_ = K.R, K.C, K.I
 CRCONST = ['pi', 'e', 'ln2', 'ln10', 'phi', 'degree']
